@@ -26,7 +26,8 @@ CONSTANTS Procs,        \* goroutines
           AliasMenu,    \* alias lists an extension may be registered with
           LimitMenu,    \* values SetLimit may store
           LookupExtra,  \* extra names looked up (e.g. a missing one)
-          Hist          \* TRUE: record the behaviour in hist (for replay)
+          Hist,         \* TRUE: record the behaviour in hist (for replay)
+          DupLast       \* TRUE: the last extension id is registered under the SAME type string as the first one
 
 Inputs == {"x1", "x2", "x3"}
 Builtin == {"root", "bin", "binc", "txt", "tj"}
@@ -53,7 +54,8 @@ InitParent == [n \in Nodes |-> CASE n \in {"bin", "txt"} -> "root" [] n = "binc"
 
 Attached(n) == n \in Builtin \/ parent[n] # "none"
 Acc(n, x, l) == IF n \in ExtSet THEN x \in eacc[n] ELSE BAcc(n, x, l)
-Name(n) == n          \* the registered type string of a node is its id in the model
+\* the registered type string of a node: its id, except that (DupLast) the last extension re-uses the first one's
+Name(n) == IF DupLast /\ Len(Exts) > 1 /\ n = Exts[Len(Exts)] THEN Exts[1] ELSE n
 NamesOf(n) == <<Name(n)>> \o (IF n \in ExtSet THEN ealias[n] ELSE <<>>)
 
 (* ------------- reference: first-match deepest path (from the statement of C03) ------------- *)
@@ -72,7 +74,7 @@ DFS(ch, n) == <<n>> \o DFSSeq(ch, ch[n])
 InSeq(v, s) == \E i \in 1..Len(s) : s[i] = v
 LookupRef(ch, al, name) ==
    LET order == DFS(ch, "root")
-       hit == {i \in 1..Len(order) : name = order[i] \/ (order[i] \in ExtSet /\ InSeq(name, al[order[i]]))} IN
+       hit == {i \in 1..Len(order) : name = Name(order[i]) \/ (order[i] \in ExtSet /\ InSeq(name, al[order[i]]))} IN
    IF hit = {} THEN "none" ELSE order[CHOOSE i \in hit : \A j \in hit : i <= j]
 
 (* ------------------------------- behaviours ------------------------------- *)
@@ -122,7 +124,7 @@ NextExt == LET un == {i \in 1..Len(Exts) : parent[Exts[i]] = "none" /\ \A h \in 
 EBuild(g, p, a, al) == /\ Idle(g) /\ NextExt # "none" /\ Attached(p)
                        /\ cur' = [cur EXCEPT ![g] = [e |-> NextExt, p |-> p, a |-> a, al |-> al]]
                        /\ pc' = [pc EXCEPT ![g] = "e.built"]
-                       /\ H([g |-> g, a |-> "EBuild", e |-> NextExt, p |-> p, acc |-> a, al |-> al])
+                       /\ H([g |-> g, a |-> "EBuild", e |-> NextExt, nm |-> Name(NextExt), p |-> p, acc |-> a, al |-> al])
                        /\ UNCHANGED <<limit, children, parent, eacc, ealias, rw, ops, done>> /\ Ghost({g})
 \* ... then the write lock is taken; the children are read and replaced under it
 ELock(g) == /\ pc[g] = "e.built"
@@ -158,7 +160,7 @@ LRUnlock(g) == /\ pc[g] = "l.done" /\ rw' = [rw EXCEPT !.r = @ - 1]
                /\ H([g |-> g, a |-> "LRUnlock"])
                /\ UNCHANGED <<limit, children, parent, eacc, ealias, cur>> /\ Ghost({})
 
-LookupNames == Builtin \cup ExtSet \cup UNION {{al[i] : i \in 1..Len(al)} : al \in AliasMenu} \cup LookupExtra
+LookupNames == Builtin \cup {Name(e) : e \in ExtSet} \cup UNION {{al[i] : i \in 1..Len(al)} : al \in AliasMenu} \cup LookupExtra
 
 Next == \E g \in Procs :
           \/ \E v \in LimitMenu : SStore(g, v)
@@ -214,7 +216,7 @@ NonInterference == \A x \in Inputs : \A l \in {0, 1, DefaultLimit} :
           FMP(children, eacc, "root", x, l) = FMP(InitChildren, eacc, "root", x, l)
 \* C14 (iv): extension names and aliases resolve to a node with the right parent
 LookupFindsExtensions == \A e \in ExtSet : Attached(e) =>
-      /\ LookupRef(children, ealias, Name(e)) = e
+      /\ LET f0 == LookupRef(children, ealias, Name(e)) IN f0 \in ExtSet /\ Name(f0) = Name(e)
       /\ \A i \in 1..Len(ealias[e]) : LET f == LookupRef(children, ealias, ealias[e][i]) IN
              f \in ExtSet /\ InSeq(ealias[e][i], ealias[f])
 \* C03: every node on a reported path accepts, and no child of the last one does
